@@ -174,24 +174,34 @@ Qed.
 Section GapsOrder.
 Context {D : Type}.
 
+Lemma leaf_gaps_sorted k target order :
+  (forall k', k = Some k' -> length k' <= length order) ->
+  StronglySorted (ord_before order) (leaf_gaps k target order).
+Proof.
+  intro Hl. destruct k as [k|]; simpl; [|repeat constructor].
+  destruct (is_prefix target k); [apply siblings_sorted; apply Hl; reflexivity|].
+  destruct (is_prefix k target); repeat constructor.
+Qed.
+
 (* one visited branch: sorted, and everything lies below the branch *)
 Lemma gaps_visit_sorted rec (t0 t1 : trie D) p depth target order i g :
   wf_at p (Nd t0 t1) -> length p = depth ->
+  (length target <= depth \/ is_prefix p target = true) ->
   (forall k, In k (keys_of (Nd t0 t1)) -> length k <= length order) ->
-  (forall c g', c = child t0 t1 i -> rec c (S depth) target order = Ok g' ->
+  (forall c g', c = child t0 t1 i ->
+                (length target <= S depth \/ is_prefix (p ++ [i]) target = true) ->
+                rec c (S depth) target order = Ok g' ->
                 StronglySorted (ord_before order) (map (app (p ++ [i])) g')) ->
   gaps_visit rec t0 t1 depth target order i = Ok g ->
   StronglySorted (ord_before order) (map (app p) g) /\
   Forall (fun x => is_prefix (p ++ [i]) x = true) (map (app p) g).
 Proof.
-  intros Hw Hp Hlen IH. unfold gaps_visit.
-  destruct (if length target <=? depth then Ok false else tb <- bit_at target depth ;; Ok (negb (Bool.eqb i tb)))
-    as [skip| |] eqn:Es; cbn [bind]; try discriminate.
-  destruct skip.
-  - intro H. inversion H. simpl. split; constructor.
-  - cbv zeta. pose proof (wf_at_child p t0 t1 i Hw) as Wc.
+  intros Hw Hp Hal Hlen IH. unfold gaps_visit.
+  destruct (length target <=? depth) eqn:Ein.
+  - (* inside the target *)
+    cbn [bind negb andb]. cbv zeta. pose proof (wf_at_child p t0 t1 i Hw) as Wc.
     destruct (child t0 t1 i) as [|k d|a b] eqn:Ec.
-    + intro H. inversion H. simpl. split; [repeat constructor|]. constructor; [apply is_prefix_refl|constructor].
+    + intro H. injection H as <-. simpl. split; [repeat constructor|]. constructor; [apply is_prefix_refl|constructor].
     + simpl in Wc.
       assert (Lk : length k <= length order).
       { apply Hlen. rewrite keys_of_Nd. apply in_or_app. destruct i; simpl in Ec; rewrite Ec; [right|left]; left; reflexivity. }
@@ -209,20 +219,69 @@ Proof.
       apply Forall_forall. intros y Hy. apply sort_by_order_In in Hy. apply sib_skipn in Hy as [a [b [r [E1 [E2 Hl]]]]].
       subst y k. apply is_prefix_app_r. eapply is_prefix_app_inv; [exact Wc|rewrite app_length; simpl; lia].
     + destruct (rec (Nd a b) (S depth) target order) as [g'| |] eqn:Er; cbn [bind]; try discriminate.
-      intro H. inversion H. rewrite map_map.
+      intro H. injection H as <-. rewrite map_map.
       assert (Same : map (fun x => p ++ i :: x) g' = map (app (p ++ [i])) g').
       { apply map_ext. intro x. rewrite <- app_assoc. reflexivity. }
-      rewrite Same. split; [apply (IH (Nd a b) g' eq_refl Er)|].
+      rewrite Same. split; [apply (IH (Nd a b) g' eq_refl); [left; apply Nat.leb_le in Ein; lia|exact Er]|].
+      apply Forall_forall. intros y Hy. apply in_map_iff in Hy as [x [<- _]]. apply is_prefix_app.
+  - (* descending along the target *)
+    apply Nat.leb_gt in Ein. destruct Hal as [Hal|Ppt]; [lia|].
+    destruct (bit_at_lt target depth Ein) as [tb [Htb Ntb]]. rewrite Htb. cbn [bind].
+    destruct (Bool.eqb i tb) eqn:Eit; cbn [negb].
+    2: { intro H. injection H as <-. simpl. split; constructor. }
+    apply eqb_prop in Eit. subst tb.
+    assert (Ppt' : is_prefix (p ++ [i]) target = true) by (apply is_prefix_snoc; rewrite Hp; auto).
+    cbv zeta. cbn [negb andb]. pose proof (wf_at_child p t0 t1 i Hw) as Wc.
+    assert (Above : forall kk, (forall k', kk = Some k' -> length k' <= length order) -> forall g0,
+              Ok (map (skipn depth) (leaf_gaps kk target order)) = Ok g0 ->
+              StronglySorted (ord_before order) (map (app p) g0) /\
+              Forall (fun x => is_prefix (p ++ [i]) x = true) (map (app p) g0)).
+    { intros kk Hkk g0 H. injection H as <-.
+      assert (Under : forall y, In y (leaf_gaps kk target order) -> is_prefix target y = true).
+      { intros y Hy. destruct kk as [k'|]; [apply (leaf_gaps_some k' target order) in Hy|apply (leaf_gaps_none target order) in Hy];
+          apply Hy. }
+      rewrite <- Hp. rewrite map_app_skipn.
+      - split; [apply leaf_gaps_sorted; exact Hkk|].
+        apply Forall_forall. intros y Hy. eapply is_prefix_trans; [exact Ppt'|apply Under; exact Hy].
+      - intros y Hy. eapply is_prefix_trans; [exact Ppt|apply Under; exact Hy]. }
+    destruct (child t0 t1 i) as [|k d|a b] eqn:Ec.
+    + destruct (S depth <? length target) eqn:Eab.
+      * apply Above. intros k' X. discriminate.
+      * intro H. injection H as <-. simpl. split; [repeat constructor|]. constructor; [apply is_prefix_refl|constructor].
+    + simpl in Wc.
+      assert (Lk : length k <= length order).
+      { apply Hlen. rewrite keys_of_Nd. apply in_or_app. destruct i; simpl in Ec; rewrite Ec; [right|left]; left; reflexivity. }
+      destruct (S depth <? length target) eqn:Eab.
+      * apply Above. intros k' X. inversion X. subst. exact Lk.
+      * destruct (S depth <? length k) eqn:El; intro H; injection H as <-; [|simpl; split; constructor].
+        change (match sibling_prefixes k with [] => [] | _ :: l => skipn depth l end)
+          with (skipn (S depth) (sibling_prefixes k)).
+        rewrite map_map.
+        assert (Same : map (fun x => p ++ skipn depth x) (sort_by_order (skipn (S depth) (sibling_prefixes k)) order)
+                       = sort_by_order (skipn (S depth) (sibling_prefixes k)) order).
+        { rewrite <- (map_id (sort_by_order _ _)) at 2. apply map_ext_in. intros y Hy.
+          apply sort_by_order_In in Hy. apply sib_skipn in Hy as [a [b [r [E1 [E2 Hl]]]]].
+          rewrite <- Hp. apply app_skipn_prefix. subst y k. apply is_prefix_snoc_l in Wc.
+          apply is_prefix_app_r. eapply is_prefix_app_inv; [exact Wc|lia]. }
+        rewrite Same. split; [apply siblings_sorted; exact Lk|].
+        apply Forall_forall. intros y Hy. apply sort_by_order_In in Hy. apply sib_skipn in Hy as [a [b [r [E1 [E2 Hl]]]]].
+        subst y k. apply is_prefix_app_r. eapply is_prefix_app_inv; [exact Wc|rewrite app_length; simpl; lia].
+    + destruct (rec (Nd a b) (S depth) target order) as [g'| |] eqn:Er; cbn [bind]; try discriminate.
+      intro H. injection H as <-. rewrite map_map.
+      assert (Same : map (fun x => p ++ i :: x) g' = map (app (p ++ [i])) g').
+      { apply map_ext. intro x. rewrite <- app_assoc. reflexivity. }
+      rewrite Same. split; [apply (IH (Nd a b) g' eq_refl); [right; exact Ppt'|exact Er]|].
       apply Forall_forall. intros y Hy. apply in_map_iff in Hy as [x [<- _]]. apply is_prefix_app.
 Qed.
 
 Lemma gaps_at_sorted (s : trie D) : forall p depth target order g,
   wf_at p s -> length p = depth -> height s + depth <= length order ->
+  (length target <= depth \/ is_prefix p target = true) ->
   (forall k, In k (keys_of s) -> length k <= length order) ->
   gaps_at s depth target order = Ok g ->
   StronglySorted (ord_before order) (map (app p) g).
 Proof.
-  induction s as [|k d|t0 IH0 t1 IH1]; intros p depth target order g Hw Hp Hh Hlen H.
+  induction s as [|k d|t0 IH0 t1 IH1]; intros p depth target order g Hw Hp Hh Hal Hlen H.
   - simpl in H. inversion H. constructor.
   - simpl in H. inversion H. constructor.
   - rewrite gaps_at_Nd in H. simpl in Hh.
@@ -230,9 +289,11 @@ Proof.
     destruct (gaps_visit gaps_at t0 t1 depth target order ob) as [g1| |] eqn:E1; cbn [bind] in H; try discriminate.
     destruct (gaps_visit gaps_at t0 t1 depth target order (negb ob)) as [g2| |] eqn:E2; cbn [bind] in H; try discriminate.
     inversion H. subst g. rewrite map_app.
-    assert (IH : forall i c g', c = child t0 t1 i -> gaps_at c (S depth) target order = Ok g' ->
+    assert (IH : forall i c g', c = child t0 t1 i ->
+                 (length target <= S depth \/ is_prefix (p ++ [i]) target = true) ->
+                 gaps_at c (S depth) target order = Ok g' ->
                  StronglySorted (ord_before order) (map (app (p ++ [i])) g')).
-    { intros i c g' Ec Eg. pose proof (wf_at_child p t0 t1 i Hw) as Wc. pose proof (height_child t0 t1 i) as Hc.
+    { intros i c g' Ec Hal' Eg. pose proof (wf_at_child p t0 t1 i Hw) as Wc. pose proof (height_child t0 t1 i) as Hc.
       simpl in Hc. subst c.
       destruct i; simpl child in *.
       - apply (IH1 (p ++ [true]) (S depth) target order g'); auto.
@@ -243,8 +304,8 @@ Proof.
         + rewrite app_length; simpl; lia.
         + lia.
         + intros k Hk. apply Hlen. rewrite keys_of_Nd. apply in_or_app. left. exact Hk. }
-    destruct (gaps_visit_sorted gaps_at t0 t1 p depth target order ob g1 Hw Hp Hlen (IH ob) E1) as [S1 F1].
-    destruct (gaps_visit_sorted gaps_at t0 t1 p depth target order (negb ob) g2 Hw Hp Hlen (IH (negb ob)) E2) as [S2 F2].
+    destruct (gaps_visit_sorted gaps_at t0 t1 p depth target order ob g1 Hw Hp Hal Hlen (IH ob) E1) as [S1 F1].
+    destruct (gaps_visit_sorted gaps_at t0 t1 p depth target order (negb ob) g2 Hw Hp Hal Hlen (IH (negb ob)) E2) as [S2 F2].
     apply SS_app; auto. intros x y Hx Hy. rewrite Forall_forall in F1, F2.
     apply (ord_before_branches p order ob); [rewrite Hp; exact Nob|apply F1; exact Hx|apply F2; exact Hy].
 Qed.
@@ -255,12 +316,11 @@ Theorem gaps_sorted (t : trie D) target order g :
   trie_gaps t target order = Ok g -> StronglySorted (ord_before order) g.
 Proof.
   intros Hw Hh Hlen H. destruct t as [|k d|t0 t1].
-  - simpl in H. inversion H. repeat constructor.
-  - simpl in H. destruct (is_prefix target k).
-    + inversion H. apply siblings_sorted. apply Hlen. left. reflexivity.
-    + destruct (is_prefix k target); inversion H; repeat constructor.
+  - cbn [trie_gaps] in H. injection H as <-. apply (leaf_gaps_sorted None). intros k' X. discriminate.
+  - cbn [trie_gaps] in H. injection H as <-. apply (leaf_gaps_sorted (Some k)). intros k' X. inversion X. subst.
+    apply Hlen. left. reflexivity.
   - pose proof (gaps_at_sorted (Nd t0 t1) [] 0 target order g Hw eq_refl) as G.
-    rewrite map_id in G. apply G; auto. simpl in *. lia.
+    rewrite map_id in G. apply G; auto. simpl in *; lia.
 Qed.
 
 End GapsOrder.
